@@ -6,7 +6,7 @@ CONSTANTS
   Configs <- C01Configs
   Seeds = {0, 1, 2}
   Textures = {"random", "clustered", "girdle", "single", "nonuniform", "layout", "layoutc", "intaligned"}
-  Flows = {"zero", "ss_xz", "ss_zx", "ss_yx", "ss_xy", "ss_yz", "ss_zy", "pure_xy", "pure_xz", "axi_c", "axi_e", "gen3d", "trace", "tdep", "xdep", "rot", "spinup", "dil_rot"}
+  Flows = {"zero", "ss_xz", "ss_zx", "ss_yx", "ss_xy", "ss_yz", "ss_zy", "pure_xy", "pure_xz", "axi_c", "axi_e", "gen3d", "trace", "tdep", "xdep", "rot", "spinup", "dil_rot", "stop", "stoprot"}
   Pars <- C01Pars
   Callbacks = {0, 4, 6, 7}
   Ns = {2, 3, 8, 50}
